@@ -145,4 +145,8 @@ def clientUnaryOkMetadata (respmd trailers : HMap) : HMap := HMap.extend (respon
 /-- `Request::set_timeout`: `self.metadata_mut().insert("grpc-timeout", value)` -/
 def setTimeout (value : Bytes) (md : HMap) : HMap := HMap.insert (HMap.name "grpc-timeout") value md
 
+/-- `MetadataMap::merge` (crate-private; `HeaderMap::extend`): used for response headers + OK
+trailers, status metadata + response headers, request headers + request trailers -/
+def merge (into other : HMap) : HMap := HMap.extend into other
+
 end Metadata
